@@ -143,13 +143,13 @@ def vkey(asg: dict, addrs=None):
 
 
 def blame(exc, default):
-    """Coarse, stable attribution of an exception: the innermost frame inside genjax's inference
-    package (`<module>.<function>`), else `default`."""
-    import traceback
-
+    """Coarse, stable attribution of an exception: qualified name of the innermost frame inside
+    genjax's inference package (e.g. `ImportanceK.run_csmc`, `stack_to_first_dim`), else `default`."""
     best = None
-    for fr in traceback.extract_tb(exc.__traceback__):
-        fn = fr.filename.replace("\\", "/")
-        if "/genjax/_src/inference/" in fn:
-            best = f"{fn.rsplit('/', 1)[1][:-3]}.{fr.name}"
+    tb = exc.__traceback__
+    while tb is not None:
+        code = tb.tb_frame.f_code
+        if "/genjax/_src/inference/" in code.co_filename.replace("\\", "/"):
+            best = getattr(code, "co_qualname", code.co_name)
+        tb = tb.tb_next
     return best or default
